@@ -17,6 +17,7 @@ REGISTRY = {
     "C07": "c07",
     "C08": "c08",
     "C09": "c09",
+    "C10": "c10",
     "C13": "c13",
     "C14": "c14",
     "C15": "c15",
